@@ -26,7 +26,7 @@ RULE = (
     "Hypothesis graphs n<=12 (quick) / n<=24 (thorough); all non-empty subsets for the subset queries when n<=5, 24 drawn subsets otherwise. "
     "(hierarchy mode) every sub-region graph of restructured closed CFGs from the shared graph sweep. "
     "Oracle: reachability by closure, SCCs as classes of mutual reachability, dominance by node deletion, immediate dominator as the "
-    "closest strict dominator. Non-trivial = the graph has a non-trivial SCC, an external target or a duplicate edge. Distinct = hash of the graph."
+    "closest strict dominator. Further legs: every query is asked again after all others and the graph must be untouched; histories (one graph object queried, edited through add_block / remove_blocks / the library's re-target idiom / direct writes to the graph mapping, queried again after every edit); dense three-way graphs; graphs with simple paths of 1301-5000 blocks under the default recursion limit. Non-trivial = the graph has a non-trivial SCC, an external target or a duplicate edge. Distinct = hash of the graph."
 )
 ASSUME = [
     "dominators are judged only on graphs with a predecessor-free block (else the documented RuntimeError is required); immediate dominators only when every block is reachable from an entry (callers' domain)",
